@@ -993,11 +993,12 @@ class TensorDictParams(TensorDictBase, nn.Module):
                 _lock_parents_weakrefs = []
             self._lock_parents_weakrefs += _lock_parents_weakrefs
             _lock_parents_weakrefs.append(weakref.ref(self))
-        # we don't want to double-lock the _param_td attrbute which is locked by default
-        if not self._param_td.is_locked:
-            self._param_td._propagate_lock(
-                _lock_parents_weakrefs, is_compiling=is_compiling
-            )
+        # the content must register this object among its lock parents even when it is locked already
+        # (`lock=True`): otherwise it could be unlocked -- and modified -- directly while this
+        # TensorDictParams, or a tensordict that holds it, is locked
+        self._param_td._propagate_lock(
+            _lock_parents_weakrefs, is_compiling=is_compiling
+        )
 
     @erase_cache
     def _propagate_unlock(self):
